@@ -27,7 +27,7 @@ ASSUMPTIONS = [
 OBLIGATIONS = {"op0": 50, "op1": 50, "op2": 50, "op3": 50, "neg-values+max": 20,
                "nan-last-in-group+tail": 20, "whole-group-nan": 20, "single-group": 10,
                "n=1": 5, "extreme-index": 10, "reject:decreasing": 30,
-               "flathomogen": 50, "goue": 20, "m2d:flat": 10, "m2d:cubic": 10,
+               "flathomogen": 50, "goue": 20, "goue:transform": 5, "m2d:flat": 10, "m2d:cubic": 10,
                "m2d:leap-feb": 3}
 
 
@@ -240,6 +240,23 @@ def run_flat_case(ctx, case):
         cnd = 1 + abs(mo) / float(np.std(v))
         ctx.check("goue.value", abs(g - ref) <= 1e-9 * cnd * max(1, abs(ref)),
                   "goue|value", case, lambda: {"goue": g, "ref": ref})
+        if v.min() > -0.9:
+            from hydrodiy.stat import transform
+            tlog = transform.get_transform("Log", nu=1.0)
+            with warnings.catch_warnings():
+                warnings.simplefilter("ignore")
+                g2 = signatures.goue(idx.astype(np.int32), v.copy(), tlog)
+            tv, tf = np.log(v + 1.0), np.log(ref_series + 1.0)
+            mo2 = math.fsum(tv) / len(tv)
+            ref2 = 1 - math.fsum((a - b) ** 2 for a, b in zip(tf, tv)) / \
+                math.fsum((a - mo2) ** 2 for a in tv)
+            if np.std(tv) > 1e-3 * np.abs(tv).max():
+                c2 = 1 + abs(mo2) / float(np.std(tv))
+                ctx.tag("goue:transform")
+                ctx.check("goue.value-transform",
+                          abs(g2 - ref2) <= 1e-9 * c2 * max(1, abs(ref2)),
+                          "goue|value|transform", case,
+                          lambda: {"goue": g2, "ref": ref2})
 
 
 def run_reject_case(ctx, case):
